@@ -113,6 +113,30 @@ Definition io_exact (p : prog) (inputs outputs : list (string * var)) (drop : bo
 Definition depends_on (p : prog) (main : nat) : list var :=
   map argvar (filter (is_arg p) (postorder (2 * fuel_of p) (full_adj p) (NIntro main))).
 
+(* ---------- functions ---------- *)
+Definition key_eqb (a b : string * string) := String.eqb (fst a) (fst b) && String.eqb (snd a) (snd b).
+Definition func_key_of (p : prog) (u : nref) : option (string * string) :=
+  match u with
+  | NReal n => match kind (getn p n) with KFunc _ _ _ _ => Some (domain (getn p n), ident (getn p n)) | _ => None end
+  | NIntro _ => None end.
+Definition fkeys (m : model) : list (string * string) := map (fun f => (f_domain f, f_name f)) (mfunctions m).
+Definition all_srcs (m : model) : list nref :=
+  (srcs_graph (mmain m) ++ flat_map (fun f => flat_map srcs_node (f_body f)) (mfunctions m))%list.
+Definition used_fkeys (p : prog) (m : model) : list (string * string) :=
+  flat_map (fun u => match func_key_of p u with Some k => [k] | None => [] end) (all_srcs m).
+(* exactly one definition per used (domain, name): call sites in the main graph, in control-flow bodies and in other functions *)
+Definition functions_exact (p : prog) (m : model) : bool :=
+  nodupb key_eqb (fkeys m) && forallb (fun k => mem key_eqb k (fkeys m)) (used_fkeys p m) &&
+  forallb (fun k => mem key_eqb k (used_fkeys p m)) (fkeys m).
+(* a function's opset imports cover the requirements of every node of its body *)
+Definition covered (imports : list (string * nat)) (dv : string * nat) : bool :=
+  existsb (fun iv => String.eqb (fst iv) (fold_domain (fst dv)) && Nat.leb (snd dv) (snd iv)) imports.
+Definition function_imports_cover (p : prog) (m : model) : bool :=
+  forallb (fun f => forallb (fun u => forallb (covered (f_imports f)) (node_req p u)) (flat_map srcs_node (f_body f))) (mfunctions m).
+(* each function body is a well-formed linearisation of its body graph *)
+Definition function_plans (p : prog) (m : model) : bool :=
+  forallb (fun f => check_plan p (f_bodyid f) (MGraph [] (f_body f) [])) (mfunctions m).
+
 (* ---------- the checked public build ---------- *)
 (* the distinct input Vars, in their order of first occurrence (one Var may be listed under two names: such a request can
    only succeed when that Var is dropped as unused) *)
@@ -123,7 +147,8 @@ Definition validators (p : prog) (r : request) (m : model) : bool :=
   | Some inputs, Some outputs =>
     let p' := with_main p (Some (main_args inputs)) outputs in
     global_unique (mmain m) && node_names_unique (mmain m) && imports_unique m &&
-    emitted_once p' (mmain m) && placed p' (mmain m) && check_plan p' (mmain m) &&
+    emitted_once p' (mmain m) && placed p' (mmain m) && check_plan p' 0 (mmain m) &&
+    functions_exact p' m && function_imports_cover p' m && function_plans p' m &&
     io_exact p' inputs outputs (r_drop r) (depends_on p' 0) (mmain m)
   | _, _ => false end.
 
